@@ -7,7 +7,7 @@ use crate::roms::*;
 use crate::util::{Opts, Rng};
 use std::io::Write;
 
-const SPS: [u16; 40] = [0x0000, 0x0001, 0x0002, 0x2000, 0x2001, 0x4000, 0x4001, 0x6001, 0x7fff, 0x8000, 0x8001, 0x9fff, 0xa000, 0xa001,
+const SPS: [u16; 42] = [0xff08, 0xff43, 0x0000, 0x0001, 0x0002, 0x2000, 0x2001, 0x4000, 0x4001, 0x6001, 0x7fff, 0x8000, 0x8001, 0x9fff, 0xa000, 0xa001,
   0xbfff, 0xc000, 0xc001, 0xc002, 0xcfff, 0xd000, 0xd001, 0xdfff, 0xe000, 0xe001, 0xfe00, 0xfe01, 0xfea0, 0xfea1, 0xff00, 0xff0f, 0xff10,
   0xff11, 0xff46, 0xff47, 0xff80, 0xff81, 0xfffe, 0xffff, 0xff42, 0xfff0];
 
@@ -27,7 +27,11 @@ pub fn run(_sub: &str, opts: &Opts, w: &mut dyn Write) {
     idx += 1;
     if idx % nshards != shard { continue; }
     for ifl in 0..32u8 { for ie in 0..32u8 {
-      let ip: u16 = match (ifl as u32 + ie as u32) % 4 { 0 => 0x0000, 1 => 0xffff, 2 => 0x1234, _ => 0xabcd };
+      // PC values whose bytes matter when the push lands on a register: 0x90 = LY at power-on (LYC), 0x40 = STAT's LYC enable
+      let ip: u16 = match (ifl as u32 + 3 * ie as u32) % 6 { 0 => 0x0000, 1 => 0xffff, 2 => 0x1234, 3 => 0xabcd, 4 => 0x9040, _ => 0x4090 };
+      // device state in which a register write has a side effect on IF: LYC = LY with / without the STAT LYC enable
+      let (lyc, st): (u8, u8) = match idx % 3 { 0 => (0, 0), 1 => (144, 0x40), _ => (144, 0) };
+      { let p = &mut core.memory as *mut MemoryAreas; crate::mem::memory_write_byte(p, 0xff41, st); crate::mem::memory_write_byte(p, 0xff45, lyc); }
       let ieu: u8 = if ifl & 1 == 1 { 0xe0 } else { 0 };
       core.memory.io.interrupt_flag = InterruptFlag::new(ifl);
       core.memory.io.interrupt_mask = ie;
@@ -44,8 +48,8 @@ pub fn run(_sub: &str, opts: &Opts, w: &mut dyn Write) {
       core.handle_interrupt();
       let (sp2, ip2, cy) = (core.registers.sp, core.registers.ip, core.registers.cycles);
       let small = crate::cpucase::small_digest(p);
-      writeln!(w, "c07 if={} ie={} ieu={} ime={} run={} sp={} ip={} | if={} ie={} ime={} run={} sp={} ip={} cy={} p1={} p2={} small={} rb={}",
-        ifl, ie, ieu, ime, run, sp, ip,
+      writeln!(w, "c07 if={} ie={} ieu={} ime={} run={} sp={} ip={} lyc={} st={} | if={} ie={} ime={} run={} sp={} ip={} cy={} p1={} p2={} small={} rb={}",
+        ifl, ie, ieu, ime, run, sp, ip, lyc, st,
         core.memory.io.interrupt_flag.as_u8(), memory_read_byte(p, 0xffff), ime_code(&core.interrupts_enabled), run_code(&core.run_state),
         sp2, ip2, cy, memory_read_byte(p, sp.wrapping_sub(1)), memory_read_byte(p, sp.wrapping_sub(2)), small,
         core.memory.cart_state.get_rom_bank()).unwrap();
